@@ -1116,6 +1116,33 @@ theorem euler_band_full (eps : ℝ) (heps : 0 ≤ eps) (heps1 : eps ≤ 1 / 25) 
   · linarith
   · linarith
 
+/-! ### pass 11: the rebuild bound without regime or `eps` hypotheses -/
+/-- **`euler()` is an approximate right inverse of `euler2SO3` everywhere** (no regime hypothesis, no bound on `eps`): for every
+unit `X` and every `eps ≥ 0`, the matrix rebuilt from `X.euler(eps)` — equivalently `euler2SO3(X.euler(eps)).matrix()` — is
+within `48·√eps` of `X.matrix()` in every entry: exactly equal outside the gimbal band, `euler_band_full` inside it, and for
+`eps > 1/25` the bound exceeds the diameter 2 of rotation-matrix entries. -/
+theorem euler_rebuild_near_always (eps : ℝ) (heps : 0 ≤ eps) (p : Quat ℝ) (h : p.normSq = 1) :
+    Mat3.Near (48 * Real.sqrt eps) (eulerMat (SO3euler eps p)) (SO3matrix p) ∧
+    Mat3.Near (48 * Real.sqrt eps) (SO3matrix (euler2SO3 (SO3euler eps p))) (SO3matrix p) := by
+  have hs0 : 0 ≤ Real.sqrt eps := Real.sqrt_nonneg _
+  have hss : Real.sqrt eps * Real.sqrt eps = eps := Real.mul_self_sqrt heps
+  have key : Mat3.Near (48 * Real.sqrt eps) (eulerMat (SO3euler eps p)) (SO3matrix p) := by
+    cases hreg : eulerRegular eps p with
+    | true =>
+      rw [eulerMat_SO3euler eps heps p h hreg]
+      exact Mat3.Near.refl' (by positivity) _
+    | false =>
+      by_cases hle : eps ≤ 1 / 25
+      · exact euler_band_full eps heps hle p h hreg
+      · have hgt := not_le.mp hle
+        have hs : 1 / 5 ≤ Real.sqrt eps := by
+          by_contra hc
+          have hc' := not_le.mp hc
+          nlinarith
+        rw [← euler2SO3_eq]
+        exact Mat3.Near.mono (by linarith) (SO3matrix_near_two _ _ (euler2SO3_unit _) h)
+  exact ⟨key, by rw [euler2SO3_eq]; exact key⟩
+
 /-! ### non-vacuity: the hypotheses are satisfiable by non-trivial values -/
 
 /-- rotation by exactly π about the x axis (`w = 0`): region 0, recovered exactly -/
@@ -1235,5 +1262,14 @@ example : Mat3.Near (48 * Real.sqrt (1 / 5000))
   simp only [] at this
   rw [show 2 * (Real.sqrt (1 / 2) * Real.sqrt (1 / 2) - 0 * 0) = 1 by rw [hs]; norm_num, abs_one] at this
   norm_num at this
+
+/-- `euler_rebuild_near_always` has an instance outside the range of `euler_band_full`: `eps = 1` (every unit quaternion is in
+the band), exact gimbal lock -/
+example : Mat3.Near (48 * Real.sqrt 1)
+    (eulerMat (SO3euler (1 : ℝ) (⟨0, Real.sqrt (1 / 2), 0, Real.sqrt (1 / 2)⟩ : Quat ℝ)))
+    (SO3matrix (⟨0, Real.sqrt (1 / 2), 0, Real.sqrt (1 / 2)⟩ : Quat ℝ)) := by
+  have hs := Real.mul_self_sqrt (show (0 : ℝ) ≤ 1 / 2 by norm_num)
+  have hu : (⟨0, Real.sqrt (1 / 2), 0, Real.sqrt (1 / 2)⟩ : Quat ℝ).normSq = 1 := by lie_unfold; linarith
+  exact (euler_rebuild_near_always 1 (by norm_num) _ hu).1
 
 end PP
